@@ -223,6 +223,7 @@ type Result struct {
 	FinalKey  h128
 	Diverged  string // replay prefix could not be followed
 	PerThread map[string]int
+	Windows   []string // with Config.Names: for every deviation taken, "preempted function >> function switched to"
 }
 
 type Config struct {
@@ -277,6 +278,9 @@ func call(r request) grant {
 		// unwinding: never talk to the scheduler again
 		return grant{abort: true}
 	}
+	if wantNames() && r.kind < NUnlock && r.label == "" {
+		r.label = callerFunc()
+	}
 	raceDisable()
 	reqCh <- r
 	g := <-threadWake(t)
@@ -286,6 +290,29 @@ func call(r request) grant {
 		panic(abortSentinel)
 	}
 	return g
+}
+
+//go:norace
+func wantNames() bool { return theSched.cfg.Names }
+
+// callerFunc names the innermost function of the code under test on the stack.
+func callerFunc() string {
+	var pcs [24]uintptr
+	n := runtime.Callers(3, pcs[:])
+	fr := runtime.CallersFrames(pcs[:n])
+	for {
+		f, more := fr.Next()
+		if strings.HasPrefix(f.Function, "github.com/enbility/spine-go/") && !strings.Contains(f.Function, "/internal/verifrt") {
+			fn := strings.TrimPrefix(f.Function, "github.com/enbility/spine-go/")
+			if strings.HasPrefix(fn, "internal/verifh/") {
+				return "harness"
+			}
+			return fn
+		}
+		if !more {
+			return "?"
+		}
+	}
 }
 
 //go:norace
@@ -768,11 +795,18 @@ func (s *sched) decide(running *thread) *thread {
 		}
 		cp.Costs[i] = c
 		if s.cfg.Names {
-			cp.Names = append(cp.Names, fmt.Sprintf("%s:%s", t.path, t.pending.kind))
+			cp.Names = append(cp.Names, fmt.Sprintf("%s:%s@%s", t.path, t.pending.kind, t.pending.label))
 		}
 	}
 	ch := s.nextChoice(len(en))
 	cp.Chosen = ch
+	if s.cfg.Names && cp.Costs[ch] > 0 {
+		from := "-"
+		if running != nil && running.pending != nil {
+			from = running.pending.label
+		}
+		s.res.Windows = append(s.res.Windows, from+" >> "+en[ch].pending.label)
+	}
 	s.res.Choices = append(s.res.Choices, cp)
 	return en[ch]
 }
